@@ -2,7 +2,10 @@
 """Regenerates MANIFEST.json from checks.json (single source of truth for per-check settings)."""
 import json, os
 V = os.path.dirname(os.path.abspath(__file__))
-checks = json.load(open(os.path.join(V, "checks.json")))
+import glob
+checks = {}
+for _p in sorted(glob.glob(os.path.join(V, "harness", "*", "check.json"))):
+    _e = json.load(open(_p)); checks[_e["id"]] = _e
 props = [json.loads(l)["id"] for l in open(os.path.join(V, "properties.jsonl")) if l.strip()]
 na_reasons = json.load(open(os.path.join(V, "not_applicable.json"))) if os.path.exists(os.path.join(V, "not_applicable.json")) else {}
 m = {
